@@ -289,13 +289,86 @@ func init() {
 
 func TestC10(t *testing.T) {
 	r, e := start(t, "C10",
-		"a generated program (scalars, functions, slices, strings, every loop form) and an injective renaming of its variables, parameters and functions into pools: compiler-shaped names (_h<n>, _rv<n>, _ma<n>, _fv<n>, _dv<n>, _dvc, helper scratch variables, mangled locals f<k>_x, Batch-owned names, helper routines; the pools are extended by every assignment target and function name found in the emitted script of the base program that is not a user spelling), shell-owned names (builtins, special/environment variables, reserved words), and random legal identifiers; functions and variables are renamed independently; second order: one more identifier takes the exact spelling under which another identifier lives in the emitted script of the renamed program (decoration read off that script, either target). Oracle (metamorphic): the renamed program is rejected by Transpile or shows the base program's stdout, exit status and stderr-emptiness under bash, and (for programs inside the 32-bit domain) the same relation for the Batch script under the cmd.exe model, where names differing only in letter case are part of the pools. Non-trivial = at least one identifier mapped into a compiler-shaped or shell-owned pool; distinct by renamed source.",
+		"a generated program (scalars, functions, slices, strings, every loop form) and an injective renaming of its variables, parameters and functions into pools: compiler-shaped names (_h<n>, _rv<n>, _ma<n>, _fv<n>, _dv<n>, _dvc, helper scratch variables, mangled locals f<k>_x, Batch-owned names, helper routines; the pools are extended by every assignment target and function name found in the emitted script of the base program that is not a user spelling), shell-owned names (builtins, special/environment variables, reserved words), and random legal identifiers; functions and variables are renamed independently; exhaustively every case pattern of seven words of 2-10 letters as variable and as function name (Batch names read off the script must stay different after case folding); second order: one more identifier takes the exact spelling under which another identifier lives in the emitted script of the renamed program (decoration read off that script, either target). Oracle (metamorphic): the renamed program is rejected by Transpile or shows the base program's stdout, exit status and stderr-emptiness under bash, and (for programs inside the 32-bit domain) the same relation for the Batch script under the cmd.exe model, where names differing only in letter case are part of the pools. Non-trivial = at least one identifier mapped into a compiler-shaped or shell-owned pool; distinct by renamed source.",
 		[]string{"the Batch half runs under the cmd.exe model of C05 (its runs outside the model are inconclusive, never verdicts)", "a variable and a function never receive the same spelling (not asserted by the property)", "the base program itself is validated by the reference interpreter (invalid or non-terminating bases are discarded)"})
 	defer r.Flush()
 	cfg := gen.Cfg{MaxStmts: 18, MaxDepth: 3, ExprDepth: 3, Funcs: true, MaxFuncs: 3, Slices: true, StrOps: true, LoopBudget: 10, DumpGlobal: true, CmdNeutral: true, ErrSpell: true, BareExpr: true}
 	if e.Thorough() {
 		cfg.MaxStmts, cfg.MaxFuncs, cfg.LoopBudget = 35, 5, 20
 	}
+	// names that differ only in letter case, exhaustively: every case pattern of a word (2^len spellings) as a variable and as
+	// a function of the Batch target. cmd.exe folds the case of variables and labels, so the emitter must give all these
+	// spellings names that stay different after folding; the names are read off the script, whatever the scheme is. A pair
+	// that meets is then run under the cmd.exe model against the same program with neutral names.
+	{
+		words := []string{"ab", "xyz", "abcde", "abcdefgh", "abcdefghij", "k_lmnopqrs", "counterval"}
+		for wi, word := range words {
+			if !e.Mine(wi*3 + 1) {
+				continue
+			}
+			nl := 0
+			for _, ch := range word {
+				if ch >= 'a' && ch <= 'z' {
+					nl++
+				}
+			}
+			for _, role := range []string{"variable", "function"} {
+				folded := map[string]string{}
+				var pairA, pairB string
+				for mask := 0; mask < 1<<nl && pairA == ""; mask++ {
+					name, k := "", 0
+					for _, ch := range word {
+						if ch >= 'a' && ch <= 'z' {
+							if mask&(1<<k) != 0 {
+								ch = ch - 'a' + 'A'
+							}
+							k++
+						}
+						name += string(ch)
+					}
+					src := name + " := 1\nprint(" + name + ")\n"
+					if role == "function" {
+						src = "func " + name + "() int {\n\treturn 1\n}\nprint(" + name + "())\n"
+					}
+					tr := run.TranspileOne(src, run.Batch)
+					if !tr.Accepted() {
+						continue
+					}
+					for _, m := range reBatTarget.FindAllStringSubmatch(tr.Script, -1) {
+						if !strings.Contains(strings.ToLower(m[1]), strings.ToLower(word)) {
+							continue
+						}
+						key := strings.ToLower(m[1])
+						if prev, ok := folded[key]; ok && prev != name {
+							pairA, pairB = prev, name
+							break
+						}
+						folded[key] = name
+					}
+				}
+				r.Eval()
+				r.Class("case-patterns:" + role)
+				r.NonTrivial("case-patterns:"+word+"/"+role, nil)
+				r.SetExtra("n_case_patterns_"+role, 1<<nl)
+				if pairA == "" {
+					continue
+				}
+				base := "va := 1\nvb := 2\nprint(va, vb)\nva = 5\nprint(va, vb)\n"
+				renamed := strings.NewReplacer("va", pairA, "vb", pairB).Replace(base)
+				mapping := map[string]string{"va/variable": pairA, "vb/variable": pairB}
+				if role == "function" {
+					base = "func va() int {\n\treturn 1\n}\nfunc vb() int {\n\treturn 2\n}\nprint(va(), vb())\n"
+					renamed = strings.NewReplacer("va", pairA, "vb", pairB).Replace(base)
+					mapping = map[string]string{"va/function": pairA, "vb/function": pairB}
+				}
+				c := renameCase{Kind: "rename-pair", Property: "C10", Base: base, Renamed: renamed, Mapping: mapping, Backend: "batch"}
+				if kind, msg := checkRenamePair(c); kind != "" {
+					r.Violate(rep.Sig{"kind": kind, "identifier": "case-pattern-pair/" + role, "backend": "batch"}, pairA+" and "+pairB+" get names that cmd.exe cannot tell apart: "+msg, c)
+				}
+			}
+		}
+	}
+
 	checkRapid(t, r, func(t *rapid.T) {
 		if gen.Uniform(0, 4).Draw(t, "family") == 0 && c10MultiFile(t, r) {
 			return
@@ -455,7 +528,7 @@ func TestC10(t *testing.T) {
 			}
 		}
 		if kind == "" && len(all) > 0 && (gen.Uniform(0, 1).Draw(t, "second-order") == 0 || (hasUpper && batchOK)) {
-			// second order: one more identifier takes the exact spelling under which an (already renamed) identifier lives
+			// exhaustively every case pattern of seven words of 2-10 letters as variable and as function name (Batch names read off the script must stay different after case folding); second order: one more identifier takes the exact spelling under which an (already renamed) identifier lives
 			// in the emitted script (read off that script), for either target; with an upper-case name in play mostly the
 			// Batch script is read (cmd.exe folds case, so its emitter has to encode the case)
 			useBatch := batchOK && gen.Uniform(0, 3).Draw(t, "second-order-batch") != 0
